@@ -422,7 +422,15 @@ class Driver(object):
             r = self.rpc
             name = lambda i: ('g%d:p%d' % (self.script['procs'][i]['group'], i)) if i < len(self.pcfgs) else 'g0:nosuch'
             gname = lambda g: ('g%d' % g) if g < len(self.script['groups']) else 'nosuchgroup'
-            if what == 'start':
+            # namespec forms: a 6th element on start/stop gives a bare process name (no group part: BAD_NAME unless a group
+            # of that name exists); on startgroup/stopgroup it routes the request through startProcess/stopProcess with
+            # 'group:*' (1) or 'group:' (2), which must behave exactly like the group call
+            if what in ('start', 'stop') and len(a) > 5:
+                self._call(req, r.startProcess if what == 'start' else r.stopProcess, 'p%d' % a[5], bool(a[4]))
+            elif what in ('startgroup', 'stopgroup') and len(a) > 5 and a[5]:
+                self._call(req, r.startProcess if what == 'startgroup' else r.stopProcess,
+                           gname(a[3]) + (':*' if a[5] == 1 else ':'), bool(a[4]))
+            elif what == 'start':
                 self._call(req, r.startProcess, name(a[3]), bool(a[4]))
             elif what == 'stop':
                 self._call(req, r.stopProcess, name(a[3]), bool(a[4]))
